@@ -169,12 +169,29 @@ where
     T: FixedPointOps<D> + CheckedSub + W<O = O> + Copy + PartialEq,
     T::Signed: Num + UnsignedAbs<Unsigned = T> + TryFrom<T> + W<O = O> + Copy,
 {
+    let (long_net, short_net, fees, impact) = ref_pool_value_parts::<T, O, D>(m, p, kind_is_deposit, maximize);
+    long_net + short_net + fees - impact
+}
+
+/// The four terms of the pool value: (long liquidity value - capped long pnl,
+/// short liquidity value - capped short pnl, pool share of pending borrowing fees,
+/// position-impact-pool value).
+pub fn ref_pool_value_parts<T, O, const D: u8>(
+    m: &VMarket<T, D>,
+    p: &Prices<T>,
+    kind_is_deposit: bool,
+    maximize: bool,
+) -> (O, O, O, O)
+where
+    O: Wide,
+    T: FixedPointOps<D> + CheckedSub + W<O = O> + Copy + PartialEq,
+    T::Signed: Num + UnsignedAbs<Unsigned = T> + TryFrom<T> + W<O = O> + Copy,
+{
     let z = O::zero();
     let unit = <T as FixedPointOps<D>>::UNIT.w();
     let pick = |pr: &Price<T>, max: bool| if max { pr.max.w() } else { pr.min.w() };
     let long_value = m.primary.long.w() * pick(&p.long_token_price, maximize);
     let short_value = m.primary.short.w() * pick(&p.short_token_price, maximize);
-    let mut pv = long_value + short_value;
 
     // pending borrowing fees, pool share
     let oi = |long: bool| if long { m.oi_long.long.w() + m.oi_long.short.w() } else { m.oi_short.long.w() + m.oi_short.short.w() };
@@ -185,7 +202,7 @@ where
         fdiv(oi(long) * cum, unit) - tb
     };
     let total_fees = pending(true) + pending(false);
-    pv = pv + fdiv(total_fees * (unit - m.b_receiver_factor.w()), unit);
+    let fees = fdiv(total_fees * (unit - m.b_receiver_factor.w()), unit);
 
     // net pnl, each side capped by max_pnl_factor(kind, side) * side pool value
     let pnl = |long: bool| -> O {
@@ -213,7 +230,8 @@ where
             x
         }
     };
-    pv = pv - (cap(true, pnl(true)) + cap(false, pnl(false)));
+    let long_net = long_value - cap(true, pnl(true));
+    let short_net = short_value - cap(false, pnl(false));
 
     // position impact pool (after the pending distribution), at the index price that minimises the pool value
     let current = m.position_impact.long.w();
@@ -229,8 +247,8 @@ where
         }
         current - dist
     };
-    pv = pv - next * pick(&p.index_token_price, !maximize);
-    pv
+    let impact = next * pick(&p.index_token_price, !maximize);
+    (long_net, short_net, fees, impact)
 }
 
 fn pool_value_market_u8() -> VMarket<u8, 1> {
